@@ -156,9 +156,8 @@ func runPD(seed int64, tier string) {
 					prop("pd_get_region", okc, "-", append(tag, hx(key), "got="+got, "want="+want)...)
 					if err == nil && r.Buckets != nil {
 						bk := r.Buckets.Keys
-						shortEnd := len(pr.e) > 0 && !bytes.HasPrefix(pr.e, k.pfx) && bytes.Compare(pr.e, k.pfx) > 0 && bytes.Compare(pr.e, k.end) < 0
 						fmt.Fprintf(out, "dbk\t%s\t%x\t%s\t=>\tok %s\n", k.mode, k.id, hxList(buckets[pr.id]), hxList(bk))
-						if !shortEnd {
+						{
 							okb := len(bk) >= 2 && bytes.Equal(bk[0], r.Meta.StartKey) && bytes.Equal(bk[len(bk)-1], r.Meta.EndKey)
 							for i := 1; okb && i < len(bk)-1; i++ {
 								okb = bytes.Compare(bk[i-1], bk[i]) < 0 && (len(r.Meta.EndKey) == 0 || bytes.Compare(bk[i], r.Meta.EndKey) < 0)
@@ -190,23 +189,22 @@ func runPD(seed int64, tier string) {
 					prop("pd_region_by_id", got == clipSpec(k, phys[i].s, phys[i].e), "-", append(tag, hx(phys[i].s), hx(phys[i].e), "got="+got)...)
 				}
 				// ScanRegions / BatchScanRegions over logical ranges
-				scanWant := func(a, b []byte) (string, bool) {
+				// the answer a scan must give: the clipped form of the regions PD lists (those touching the encoded range),
+				// without the ones that hold no key of the keyspace (skipped since 163e34b). Also the model's input.
+				scanWant := func(a, b []byte) (string, string) {
 					ps, pe := k.c.EncodeRange(a, b)
-					var parts []string
+					var parts, listed []string
 					for i := range phys {
 						overl := (len(phys[i].e) == 0 || bytes.Compare(phys[i].e, ps) > 0) && bytes.Compare(phys[i].s, pe) < 0
 						if !overl {
 							continue
 						}
-						w := clipSpec(k, phys[i].s, phys[i].e)
-						if w == "oob" {
-							// a region that overlaps the physical range without holding a key of the keyspace (only a short
-							// boundary key): the client refuses the whole scan (modelled: C15_pd_outside_error)
-							return "oob", true
+						listed = append(listed, hx(memEnc(phys[i].s))+":"+hx(memEnc(phys[i].e)))
+						if w := clipSpec(k, phys[i].s, phys[i].e); w != "oob" {
+							parts = append(parts, w)
 						}
-						parts = append(parts, w)
 					}
-					return strings.Join(parts, ";"), false
+					return strings.Join(parts, ";"), strings.Join(listed, ",")
 				}
 				scanGot := func(rs []*router.Region, err error) string {
 					if err != nil {
@@ -233,14 +231,20 @@ func runPD(seed int64, tier string) {
 					if i%5 == 0 {
 						a = nil
 					}
+					if i == 1 {
+						// directed regression (F35): scan to the unbounded end; with a short split key PD lists a region
+						// that touches the range only in that key
+						a, b = []byte("a"), nil
+					}
 					if len(b) > 0 && bytes.Compare(a, b) >= 0 {
 						continue
 					}
 					rs, err := cpd.ScanRegions(ctx, a, b, 0)
 					got := scanGot(rs, err)
-					want, refused := scanWant(a, b)
+					want, listed := scanWant(a, b)
+					fmt.Fprintf(out, "dsc\t%s\t%x\t%s\t=>\t%s\n", k.mode, k.id, listed, got)
 					okc := got == want
-					if okc && !refused && len(rs) > 0 {
+					if okc && len(rs) > 0 {
 						// covers [a, b) without holes
 						okc = bytes.Compare(rs[0].Meta.StartKey, a) <= 0
 						for j := 1; okc && j < len(rs); j++ {
@@ -263,9 +267,7 @@ func runPD(seed int64, tier string) {
 					w2, _ := scanWant(a2, b2)
 					// every region of either range occurs once, in order; every region returned is a clipped physical region
 					okb := true
-					if want == "oob" || w2 == "oob" {
-						okb = got2 == "oob"
-					} else {
+					{
 						var exp []string
 						for _, part := range append(strings.Split(want, ";"), strings.Split(w2, ";")...) {
 							if part != "" && (len(exp) == 0 || exp[len(exp)-1] != part) {
